@@ -48,6 +48,11 @@ def gen(rng, tier):
         cases.append({'kind': 'text', 'source': form.replace('%s', q)})
     for i in range(40 if tier == 'quick' else 600):
         cases.append({'kind': 'text', 'source': E.gen_boundary(rng), 'boundary': True})
+    for i in range(30 if tier == 'quick' else 500):
+        # head names that are ASCII identifiers but for one or two characters which case mapping, Unicode normalisation or
+        # Python's identifier rules relate to ASCII (classes computed from the interpreter's tables: lib/emitcheck.py)
+        q = E.quote_atom(E.rnd_mixed_name(rng))
+        cases.append({'kind': 'text', 'source': rng.choice(HEAD_FORMS).replace('%s', q)})
     return cases
 
 def builtin_corpus():
